@@ -37,6 +37,7 @@ type iOp struct {
 	name            string
 	cbp, mbf        bool
 	tok, short, dup bool
+	zero            bool // explicit InterestLifetime of 0: the Interest expires the moment it arrives
 	label           string
 }
 
@@ -147,14 +148,25 @@ var slices = map[string]slice{
 		tops:   []tOp{t100, t5s},
 	},
 	"chain": {
-		inames: []string{"/a", "/a/b"}, ifaces: []uint64{fwsim.L1, fwsim.N3}, shapes: []string{"", "cbp", "mbf", "tok", "short", "dup", "cbp+tok"},
+		inames: []string{"/a", "/a/b"}, ifaces: []uint64{fwsim.L1, fwsim.N3}, shapes: []string{"", "cbp", "mbf", "tok", "short", "dup", "cbp+tok", "zero"},
 		dnames: []string{"/a", "/a/b"}, dfaces: []uint64{fwsim.N2}, dtoks: []string{"none", "echo0", "echo1", "foreign", "four"}, dfresh: []bool{false},
 		dextra:  []dOp{{face: fwsim.N2, name: "/a/b", fresh: true}, {face: fwsim.L1, name: "/a/b"}, {face: fwsim.N3, name: "/a", tok: "echo0"}},
 		tops:    []tOp{t100, t5s, t600, a600},
 		routine: []string{"I(L1,/a,plain)", "I(N3,/a/b,plain)", "I(L1,/a/b,plain)", "D(N2,/a,f0,echo0)", "D(N2,/a/b,f0,none)", "T(100ms)", "T(5s)"},
 	},
+	// the cache next to the PIT: Data without FreshnessPeriod is stale at once, so a MustBeFresh
+	// Interest stays pending on the very name-tree node that holds the cached Data (with "csa",
+	// admit without serve, every Interest does); three Data names against small content-store
+	// capacities (cap=0|1|2): Data, solicited or not, evicts entries at, below and above nodes that
+	// hold pending Interests, and the Data that answers them arrives afterwards by name or by token
+	"cache": {
+		inames: []string{"/a", "/a/b"}, ifaces: []uint64{fwsim.L1, fwsim.N3}, shapes: []string{"", "mbf", "cbp"},
+		dnames: []string{"/a", "/a/b", "/a/b/c"}, dfaces: []uint64{fwsim.N2}, dtoks: []string{"none"}, dfresh: []bool{false, true},
+		dextra: []dOp{{face: fwsim.N2, name: "/a/b", tok: "echo0"}},
+		tops:   []tOp{t100, t600},
+	},
 	"time": {
-		inames: []string{"/a", "/a/b"}, ifaces: []uint64{fwsim.L1, fwsim.N3}, shapes: []string{"", "short", "cbp+short", "dup", "short+tok", "dup+tok"},
+		inames: []string{"/a", "/a/b"}, ifaces: []uint64{fwsim.L1, fwsim.N3}, shapes: []string{"", "short", "cbp+short", "dup", "short+tok", "dup+tok", "zero"},
 		dnames: []string{"/a", "/a/b"}, dfaces: []uint64{fwsim.N2, fwsim.N3}, dtoks: []string{"none", "echo0"}, dfresh: []bool{false},
 		// late Data echoing the token of an Interest whose entry has already expired
 		dextra: []dOp{{face: fwsim.N2, name: "/a", tok: "echoGone"}, {face: fwsim.N2, name: "/a/b", tok: "echoGone"}},
@@ -219,6 +231,9 @@ func (s slice) ops() (names []string, defs map[string]opDef) {
 		if o.dup {
 			fl = append(fl, "dup")
 		}
+		if o.zero {
+			fl = append(fl, "zero")
+		}
 		sh := strings.Join(fl, "+")
 		if sh == "" {
 			sh = "plain"
@@ -260,6 +275,8 @@ func (s slice) ops() (names []string, defs map[string]opDef) {
 							o.short = true
 						case "dup":
 							o.dup = true
+						case "zero":
+							o.zero = true
 						}
 					}
 					addI(o)
@@ -341,6 +358,7 @@ func build(cfgName string) explore.System {
 	// "t1" = the driven thread is thread 1 of 2 (the names /a... are replaced by ones that the
 	// link service dispatches to that thread; tokens carry thread id 1)
 	link, t1, nameA := false, false, "/a"
+	capacity := -1
 	for _, x := range strings.Fields(cfgName)[4:] {
 		switch {
 		case x == "link":
@@ -350,6 +368,11 @@ func build(cfgName string) explore.System {
 			nameA = fwsim.New(fwsim.Config{ThreadID: 1}).NameForThread("a", "/b", "/b/c")
 			slc = slc.rename("/a", nameA)
 		case strings.HasPrefix(x, "dev<="):
+		case strings.HasPrefix(x, "cap="):
+			// content-store capacity (management-configurable; default 1024 never evicts here)
+			if _, err := fmt.Sscanf(x, "cap=%d", &capacity); err != nil || capacity < 0 {
+				report.Fatal("bad config name %q", cfgName)
+			}
 		default:
 			report.Fatal("bad config name %q", cfgName)
 		}
@@ -383,7 +406,14 @@ func build(cfgName string) explore.System {
 	default:
 		report.Fatal("unknown strategy %q", st)
 	}
-	s.cfg.CsAdmit, s.cfg.CsServe = cs == "cs1", cs == "cs1"
+	// cs1 = admit + serve, cs0 = neither, csa = admit only (Data is cached, nothing is served)
+	if cs != "cs1" && cs != "cs0" && cs != "csa" {
+		report.Fatal("unknown cache mode %q", cs)
+	}
+	s.cfg.CsAdmit, s.cfg.CsServe = cs == "cs1" || cs == "csa", cs == "cs1"
+	if capacity >= 0 {
+		s.cfg.CsCapacity, s.cfg.CsCapacityExact = capacity, true
+	}
 	switch fib {
 	case "tree":
 		s.cfg.FibAlgo = "nametree"
@@ -496,6 +526,10 @@ func (s *sys) step(in *inst, op explore.Op, check bool) (v []report.Violation) {
 			life = lifeShort
 			is.Lifetime = fwsim.Dur(lifeShort)
 		}
+		if o.zero {
+			life = 0
+			is.Lifetime = fwsim.Dur(0)
+		}
 		var lp fwsim.LP
 		if o.tok {
 			lp.PitToken = tokenOf(o.face, false)
@@ -536,6 +570,7 @@ func (s *sys) step(in *inst, op explore.Op, check bool) (v []report.Violation) {
 		var sends []fwsim.Send
 		if d.t.tick {
 			sends = in.sim.Tick()
+			in.ref.ticks = append(in.ref.ticks, in.sim.Now())
 		}
 		in.refresh()
 		for _, sd := range sends {
@@ -604,6 +639,11 @@ func (s *sys) Canon(i any) string {
 		fmt.Fprintf(&b, "R[%s", k)
 		if e.fwdTok != nil {
 			fmt.Fprintf(&b, " fwd=%s", tokName(*e.fwdTok))
+		}
+		if dl := e.deadline.Sub(now); dl > 0 {
+			fmt.Fprintf(&b, " dl=%s", dl)
+		} else {
+			fmt.Fprintf(&b, " dl=x/%d", r.ticksSince(e))
 		}
 		faces := make([]uint64, 0, len(e.recs))
 		for f := range e.recs {
@@ -701,6 +741,9 @@ func configs(th bool) []explore.Config {
 		// quick: every slice to depth 4; the eight {strategy} x {cache} x {FIB} combinations are
 		// spread over the slices so that each combination is exercised by at least one slice;
 		// the small core alphabet to depth 6; request/response chains with <=1 deviation to depth 7
+		// small content-store capacities (eviction while Interests are pending) on the cache alphabet
+		add("cache", "br", "cs1", "tree cap=1", 4)
+		add("cache", "mc", "csa", "ht cap=0", 4)
 		add("names", "br", "cs1", "tree", 4)
 		add("names", "mc", "cs0", "ht", 4)
 		add("tokens", "br", "cs0", "ht", 4)
@@ -740,6 +783,15 @@ func configs(th bool) []explore.Config {
 				add("core", st, cs, fib, 7)
 			}
 		}
+	}
+	// content-store capacity 0 / 1 / 2 x cache mode x strategy
+	for _, st := range []string{"br", "mc"} {
+		add("cache", st, "cs1", "tree cap=1", 5)
+		add("cache", st, "csa", "ht cap=0", 5)
+		add("cache", st, "cs1", "ht cap=2", 5)
+		add("cache", st, "csa", "tree cap=1", 5)
+		add("cache", st, "cs1", "tree cap=0", 4)
+		add("flags", st, "cs1", "tree cap=1", 4)
 	}
 	c = append(c, explore.Config{Name: "audit(no dedup) core br cs1 tree", BuildName: "core br cs1 tree", MaxDepth: 5, MaxDev: -1, NoDedup: true})
 	for _, b := range []string{"tiny br cs1 tree", "tiny mc cs0 ht", "tiny mc cs1 tree", "tiny br cs0 ht"} {
@@ -855,13 +907,14 @@ func main() {
 			cov["oracle_branches_exercised"] = o
 			cov["dispatch_agreement_pass"] = dispatchPass(rep)
 		},
-		Rule: "BFS over histories of Interest arrivals I(face,name,CanBePrefix,MustBeFresh,nonce fresh|repeated,lifetime 4s|500ms,PIT token), Data arrivals D(face,name,freshness,token none|echo of a live upstream token|foreign 6-byte|4-byte) and clock steps T(dt)+reaper tick / A(dt) without tick, on one real fw.Thread with real PIT-CS, dead nonce list, FIB (tree, hash table) and strategies (best-route, multicast), cache on/off; four focused alphabets (names, tokens, flags, time); after every transition every SendPacket is compared with a three-valued reference of pending Interests and the reference is cross-checked against the white-box PIT dump; states de-duplicated on reference + white-box dump (clock-relative, tokens renamed by entry, nonces by equality with the last nonce per name)",
+		Rule: "BFS over histories of Interest arrivals I(face,name,CanBePrefix,MustBeFresh,nonce fresh|repeated,lifetime 4s|500ms|0,PIT token), Data arrivals D(face,name,freshness,token none|echo of a live upstream token|foreign 6-byte|4-byte) and clock steps T(dt)+reaper tick / A(dt) without tick, on one real fw.Thread with real PIT-CS, dead nonce list, FIB (tree, hash table) and strategies (best-route, multicast), cache on/off/admit-only, content-store capacity 1024 (never evicts) and 0|1|2 on the cache alphabet; focused alphabets (names, tokens, flags, time, cache); after every transition every SendPacket is compared with a three-valued reference of pending Interests and the reference is cross-checked against the white-box PIT dump; states de-duplicated on reference + white-box dump (clock-relative, tokens renamed by entry, nonces by equality with the last nonce per name)",
 		Assumptions: []string{
 			"faces are simulated at the dispatch.Face seam: a received frame is turned into defn.Pkt exactly as NDNLPLinkService.handleIncomingFrame + dispatchInterest/dispatchData do (copied field by field in verif/harness/fwsim), one forwarding thread (id 0)",
 			"the clock is virtual (verif/shim/vtime) and PIT tokens come from verif/shim/vrand; the reaper runs only in T(dt) steps, once, after the clock moved",
 			"equal canonical state (reference records + live tokens + per-name nonce/dead-nonce status + private PIT-CS dump with queue priorities, all times relative to now) implies equal futures; out-record ages are saturated at the 500 ms suppression window, expired times at 0",
 			"where the property leaves a choice the observed behaviour is adopted into the reference: whether an Interest repeating an already seen (name, nonce) is recorded; whether a record past its own lifetime still exists; whether Data echoing a token that was not attached to the currently pending Interest of that entry matches",
-			"name universe {/a,/a/b,/a/b/c,/localhost/x}; lifetimes {4 s default, 500 ms}; clock steps {100 ms, 600 ms, 5 s}; faces L1,L5 local, N2,N3,N4 non-local, A6 ad-hoc",
+			"a record whose own lifetime elapsed may or may not receive a copy until the latest lifetime among all Interests that ever arrived for its PIT entry has elapsed and the reaper has run twice since (the 'shortly after' of C08); from then on a copy, or a surviving in-record, is a C01.only violation",
+			"name universe {/a,/a/b,/a/b/c,/localhost/x}; lifetimes {4 s default, 500 ms, explicit 0}; clock steps {100 ms, 600 ms, 5 s}; faces L1,L5 local, N2,N3,N4 non-local, A6 ad-hoc",
 		},
 	})
 }
